@@ -7,7 +7,7 @@ pub mod take;
 
 use super::{DeError, Error};
 
-use integer_encoding::{VarInt, VarIntReader};
+use integer_encoding::VarInt;
 
 /// Abstracts reading from slices or any other `impl BufRead` behind the same
 /// interface
@@ -180,7 +180,31 @@ impl<R: std::io::BufRead> Read for ReaderRead<R> {
 		// more general `read_varint` method that reads byte by byte (that's slightly
 		// sub-optimal but also will trigger extremely rarely).
 		match I::decode_var(self.fill_buf().map_err(DeError::io)?) {
-			None => <Self as VarIntReader>::read_varint(self).map_err(DeError::io),
+			None => {
+				// Gather the bytes of the varint one by one, then decode them the same
+				// way as above, so that the outcome does not depend on where the buffer
+				// refill boundaries happen to be.
+				let mut buf = [0u8; 10];
+				let mut len = 0;
+				while len < buf.len() {
+					let mut byte = [0u8; 1];
+					if std::io::Read::read(self, &mut byte).map_err(DeError::io)? == 0 {
+						break;
+					}
+					buf[len] = byte[0];
+					len += 1;
+					if byte[0] & 0x80 == 0 {
+						break;
+					}
+				}
+				match I::decode_var(&buf[..len]) {
+					Some((val, _)) => Ok(val),
+					None => Err(DeError::io(std::io::Error::new(
+						std::io::ErrorKind::UnexpectedEof,
+						"Reached EOF",
+					))),
+				}
+			}
 			Some((val, read)) => {
 				self.consume(read);
 				Ok(val)
